@@ -392,7 +392,8 @@ def exWorldRoutinesInImport : World :=
   [("main.exps", { imports := [some "lib.exps"], routines := [some (.cons (.macroCall "m" 0) .nil)] }),
    ("lib.exps", { macros := [⟨"m", [], .cons (.op false) .nil⟩], routines := [some (.cons (.op false) .nil)] })]
 
-theorem routines_in_import_accepted : checkWorld {} exWorldRoutinesInImport "main.exps" = .ok () := by decide
+theorem routines_in_import_accepted :
+    checkWorld { reparseEmpty := true } exWorldRoutinesInImport "main.exps" = .ok () := by decide
 
 /-- with the visitor applied to the file's tree, a macros-only compilation of a file with routines fails -/
 theorem macrosOnly_fails_if_reparsed (cfg : Cfg) (hc : cfg.reparseEmpty = false) (w : World) (s : String) (g : File)
